@@ -14,6 +14,7 @@ import Driver.Plug.FutChain
 import Driver.Plug.WhenComb
 import Driver.Plug.Wake
 import Driver.Plug.Pipeline
+import Driver.Plug.HBDet
 /-! The list of plug-in models (one import and one entry per model). -/
 namespace Driver
 
@@ -34,7 +35,8 @@ def plugins : List (String × Plug) := [
   ("whenall", Driver.PlugWhenComb.plugAll),
   ("whenany", Driver.PlugWhenComb.plugAny),
   ("wake", Driver.PlugWake.plug),
-  ("pipe", Driver.PlugPipe.plug)
+  ("pipe", Driver.PlugPipe.plug),
+  ("hbdet", Driver.PlugHBDet.plug)
 ]
 
 end Driver
